@@ -11,6 +11,10 @@ func getErr(meta any) any {
 	switch metaValue := meta.(type) {
 	case *confirmed_block.TransactionStatusMeta:
 		out, _ := solanaerrors.ParseTransactionError(metaValue.Err)
+		if out == nil {
+			// no error: return the untyped nil, a nil map in an interface value compares as non-nil
+			return nil
+		}
 		return out
 	case *metalatest.TransactionStatusMeta:
 		switch status := metaValue.Status.(type) {
